@@ -2,7 +2,7 @@ import CashewsVerif.Lemmas.ClientSideInv2
 /-
 C20 — the client-side cache agrees with the server once invalidations are delivered.
 
-ABOUT MODELS (as C19): `CS.step` models `client_side.py` (with the repairs of findings D26 and D31, now in the code)
+ABOUT MODELS (as C19): `CS.step` models `client_side.py` (with the repairs of findings D26, D31 and D37, now in the code)
 for several clients over the server model `Redis.Srv` extended with BCAST tracking (every modification, expiry and
 flush is announced to every tracking client, the writer included; expiry is announced when time passes the deadline).
 Neither redis-py nor a Redis server is available in the sandbox; the correspondence check runs 2–3 real
@@ -27,9 +27,8 @@ nothing readable under that key (`Agree`).
 
 `WF` constrains ARGUMENTS only (it excludes no command): a written value is one the serializer reads back (C09), a lock
 token likewise (digits or a decodable payload: a raw token is answered from the holder's local copy by `get` but read as
-"nothing" from the server, by the code itself), and `expire` gets a positive time (`expire(k, 0)` makes the server
-delete the key while the caller's local copy keeps the value and its echo mark swallows the announcement — there the
-implementation itself disagrees: see the example at the end of this file).  `set_many` may repeat a key. -/
+"nothing" from the server, by the code itself).  `expire` takes any time, 0 included (finding D37, repaired: the server
+deletes the key and the caller remembers "absent").  `set_many` may repeat a key. -/
 theorem agreement_at_quiescence (isEnc : String → Bool) (ops : List CS.Op)
     (hwf : ∀ op ∈ ops, WF isEnc op) :
     Quiet (CS.qrun (St.init isEnc) ops).1 ∧ Agree (CS.qrun (St.init isEnc) ops).1 :=
@@ -208,13 +207,20 @@ example : (CS.qrun (St.init dec) sampleHist3).2 =
      .bool true, .pairs [("k:a", .int 9), ("k:b", .obj "bb")], .int (-1), .bool true, .keys ["k:a"], .pairs [("k:a", .int 9)],
      .none_, .pairs [("k:a", .int 9), ("j:a", .int 3)]] := by decide +kernel
 
-/-- the side condition on `expire` is needed, in the model as in the code: `expire(k, 0)` makes the server delete the key,
-the caller's local copy keeps the value (and its echo mark swallows the announcement), so the caller reads a value the
-server no longer holds — while every other client reads "nothing" -/
-example :
-    let st := (CS.qrun (St.init dec) [.set 0 "k" (.int 1) none .always, .get 0 "k", .expire 0 "k" 0]).1
-    (CS.step st (.get 0 "k")).2 = .val (some (.int 1)) ∧ srvValue st "k" = none ∧ (CS.step st (.get 1 "k")).2 = .val none := by
-  decide +kernel
+/-- `expire(k, 0)` (finding D37, repaired): the server deletes the key, the caller's local copy says "absent", every
+client reads nothing — and a later write is seen again -/
+def sampleHist4 : List CS.Op :=
+  [.set 0 "k" (.int 1) none .always, .get 0 "k", .get 1 "k", .expire 0 "k" 0, .get 0 "k", .exists_ 0 "k", .get 1 "k",
+   .expire 1 "zz" 0, .get 1 "zz", .set 1 "k" (.int 2) none .always, .get 0 "k"]
+
+example : ∀ op ∈ sampleHist4, WF dec op := by
+  intro op hop
+  simp only [sampleHist4, List.mem_cons, List.mem_nil_iff, or_false] at hop
+  repeat (first | (rcases hop with h | hop; · subst h; simp [WF, DecV, TokOK, dec]) | (subst hop; simp [WF, DecV, TokOK, dec]))
+
+example : (CS.qrun (St.init dec) sampleHist4).2 =
+    [.bool true, .val (some (.int 1)), .val (some (.int 1)), .none_, .val none, .bool false, .val none, .none_, .val none,
+     .bool true, .val (some (.int 2))] ∧ srvValue (CS.qrun (St.init dec) (sampleHist4.take 4)).1 "k" = none := by decide +kernel
 
 /-- a rejected conditional write exists (the premise of `rejected_conditional_never_readable` is reachable) -/
 example : (CS.step (CS.qrun (St.init dec) [.set 0 "k" (.int 1) none .always]).1 (.set 1 "k" (.int 2) none .nx)).2 = .bool false := by
